@@ -597,7 +597,8 @@ pub fn run_check(check: &dyn Check, tier: Tier) -> i32 {
     for f in sum.found.iter_mut() {
         if f.violations.len() == 1 && label_class(&f.violations[0].sig).is_some() {
             let sig = f.violations[0].sig.clone();
-            let in_child = !sig.starts_with("alloc:");
+            // always in a child process: these scenarios can kill the process that executes them
+            let in_child = true;
             let p = label_class(&sig).unwrap();
             // shortcut: does an already minimised scenario explain this one?
             let mut explained = false;
@@ -658,7 +659,7 @@ pub fn run_check(check: &dyn Check, tier: Tier) -> i32 {
         let f = &sum.found[fi];
         let v = &f.violations[vi];
         if replays.len() < max_report {
-            let in_child = v.oracle == "no_abort" || v.oracle == "bounded_liveness" || sig.starts_with("alloc-abort");
+            let in_child = v.oracle == "no_abort" || v.oracle == "bounded_liveness" || v.oracle == "memory_budget" || label_class(sig).is_some();
             let (min, steps) = shrink(check, f.scenario.clone(), sig, in_child, if in_child { 40 } else { 400 });
             let p = write_replay(id, seed, f, v, &min, steps);
             println!("VIOLATION property={} replay={}", id, p.display());
